@@ -12,6 +12,9 @@ S (search, independent of the model)  on the *implementation's* output: `chk_equ
    quantifiers are evaluated exactly, Int quantifiers over small finite domains) and the advertised shape predicate
    (`shape nnf|aig|prenex|qf|notand|notor <term>` of the C10 driver evaluated on the implementation's output).
    An exception on an input of the procedure's fragment is a violation as well.
+History  prenex is also run on environments with a history (earlier fresh-symbol-creating calls, then user symbols
+   named like the manager's fresh names FV<k>, free in the formula); S checks in addition that no bound variable of
+   the result is a free symbol of the input (the freshness the theorem `prenex_equiv` assumes of the supply).
 Shrinking  the first failing input of every new signature is replaced by its smallest Boolean sub-formula that
    still fails with the same (procedure, oracle) -- one batched round, so that replays stay readable.
 """
@@ -764,14 +767,17 @@ def process(ctx, env, cases, record=True):
     model_lines, sem_lines = [], []
     work = []
     n_int = 5 if ctx.tier == "quick" else 8
-    for idx, (proc, f) in enumerate(cases):
+    for idx, case in enumerate(cases):
+        proc, f = case[0], case[1]
         try:
             ef = wire.enc_term(f)
         except wire.OutOfFragment:
             ctx.count("out_of_fragment")
             continue
-        res = run_impl(env, proc, f)
-        item = {"proc": proc, "f": f, "ef": ef, "res": res, "idx": idx}
+        # a case may carry the result computed earlier, in the environment (history) it was generated for
+        res = case[2] if len(case) > 2 else run_impl(env, proc, f)
+        item = {"proc": proc, "f": f, "ef": ef, "res": res, "idx": idx,
+                "hist": case[3] if len(case) > 3 else None}
         # ---- K request
         item["k"] = len(model_lines)
         model_lines.append(request_line(proc, f))
@@ -844,6 +850,7 @@ def process(ctx, env, cases, record=True):
         if res[0] == "err":
             ctx.count("impl_raised_%s_%s" % (proc, res[1]))
         rep = {"proc": proc, "formula": rd, "term": item["ef"], "request": model_lines[item["k"]],
+               "history": item["hist"],
                "impl": (semantic.readable(res[1], 600) if res[0] == "ok" and proc not in ("conj", "disj")
                         else repr(res)[:600])}
         if len(ctx.samples) < 6 and changed and ctx.rng.random() < 0.02:
@@ -872,6 +879,16 @@ def process(ctx, env, cases, record=True):
                                  dict(rep, sem_request=sem_lines[k], oracle=a, impl=semantic.readable(g_, 600)))
                 else:
                     ctx.count("s_equiv_ok")
+        if proc == "prenex" and res[0] == "ok":
+            # the freshness of the renamed variables: no bound variable of the result is a free symbol of the input
+            cap = sorted(v.symbol_name() for v in (bound_symbols(res[1]) & set(f.get_free_variables())))
+            if cap:
+                nfail += 1
+                ctx.report_s(sig_for(proc, "fresh-capture", f, {"history": "yes" if item["hist"] else "no"}),
+                             "prenex binds %s, which is free in its input: %s  ==>  %s" % (
+                                 ", ".join(cap), rd[:200], rep["impl"][:300]), rep)
+            else:
+                ctx.count("s_fresh_ok")
         if model_ans is not None and "shape_lines" in item:
             for k in item["shape_lines"]:
                 a = model_ans[k]
@@ -948,7 +965,7 @@ def shrink(ctx, env):
     known = [e for e in common.load_known() if e.get("property") == ctx.prop]
     firsts = {}
     for v in ctx.s_violations:
-        if common.match_known(v["sig"], known) is not None or "term" not in v["replay"]:
+        if common.match_known(v["sig"], known) is not None or "term" not in v["replay"] or v["replay"].get("history"):
             continue
         key = _json.dumps(v["sig"], sort_keys=True)
         if key not in firsts and len(firsts) < 5:
@@ -983,6 +1000,95 @@ def shrink(ctx, env):
             v["what"] = best["what"] + "   [shrunk from: " + v["replay"]["formula"][:200] + "]"
             v["replay"] = dict(best["replay"], shrunk_from=v["replay"]["term"])
             ctx.count("shrunk")
+
+
+def bound_symbols(f):
+    out, seen, stack = set(), set(), [f]
+    while stack:
+        n = stack.pop()
+        if n.node_id() in seen:
+            continue
+        seen.add(n.node_id())
+        if n.is_quantifier():
+            out.update(n.quantifier_vars())
+        stack.extend(n.args())
+    return out
+
+
+# ------------------------------------------------------------------------------------------- fresh symbols and history
+TYTOK = {"B": BOOL, "I": INT, "V2": BVType(2)}
+
+
+def apply_history(env, steps):
+    """replays, on a new environment, the calls that precede a prenex call: earlier fresh-symbol-creating calls and
+    the declaration of user symbols whose names look like the manager's fresh names"""
+    import pysmt.rewritings as rw
+    m = env.formula_manager
+    for st in steps:
+        if st[0] == "fresh":
+            m.FreshSymbol(TYTOK[st[1]])
+        elif st[0] == "prenex":
+            h = m.Symbol("ha", BOOL)
+            rw.prenex_normal_form(m.And(m.Exists([h], m.Not(h)), h), env)
+        elif st[0] == "declare":
+            m.Symbol(st[1], TYTOK[st[2]])
+
+
+def history_cases(ctx, n):
+    """prenex calls that need alpha-renaming, on environments with a history: 0-3 earlier fresh-symbol-creating
+    calls, THEN user symbols named like fresh names (FV<k>, Bool and other sorts, contiguous or not) that occur
+    free in the formula.  The real result is computed at once, in that environment."""
+    import re
+    from pysmt.environment import push_env, pop_env
+    r = ctx.rng
+    out = []
+    for _ in range(n):
+        env = Environment()
+        push_env(env)
+        try:
+            m = env.formula_manager
+            steps = []
+            for _h in range(r.choice([0, 0, 1, 1, 2, 3])):
+                k = r.choice(["fresh", "fresh", "prenex"])
+                steps.append(("fresh", r.choice(["B", "B", "I"])) if k == "fresh" else ("prenex",))
+            apply_history(env, steps)
+            nums = [int(mm.group(1)) for mm in (re.fullmatch(r"FV(\d+)", sy.symbol_name())
+                                                for sy in m.get_all_symbols()) if mm]
+            c = max(nums) + 1 if nums else 0
+            offs = sorted(r.sample(range(0, 8), r.choice([1, 2, 3, 4, 5])))
+            if r.random() < 0.3:
+                offs = list(range(0, r.choice([2, 4, 7])))            # contiguous from the next name on
+            decl = []
+            for o in offs:
+                tok = "B" if r.random() < 0.8 else r.choice(["I", "V2"])
+                decl.append(("declare", "FV%d" % (c + o), tok))
+            steps2 = steps + decl
+            apply_history(env, decl)
+            x, y = m.Symbol("hx", BOOL), m.Symbol("hy", BOOL)
+            bools = [m.Symbol(nm, BOOL) for (_d, nm, tok) in decl if tok == "B"]
+            ints = [m.Symbol(nm, INT) for (_d, nm, tok) in decl if tok == "I"]
+            r.shuffle(bools)
+            used = bools[:r.choice([1, 2, 3, 3])] if r.random() < 0.7 else bools
+            b0 = used[0] if used else x
+            atoms = list(used) + [m.LE(i_, m.Int(1)) for i_ in ints[:1]]
+            shape = r.randrange(6)
+            if shape == 0:
+                f = m.And([x] + atoms + [m.Exists([x], m.Not(x))])
+            elif shape == 1:
+                f = m.Or([m.Not(x)] + [m.Not(a_) for a_ in atoms] + [m.ForAll([x], x)])
+            elif shape == 2:
+                f = m.And([x, y] + atoms + [m.Exists([x], m.Not(x)), m.ForAll([y], m.Or(y, m.Not(b0)))])
+            elif shape == 3:
+                f = m.Iff(m.And([x] + atoms), m.Exists([x], m.And(x, b0)))
+            elif shape == 4:
+                f = m.And(m.Or(x, b0), m.Exists([x, y], m.And(m.Not(x), y)), m.And([y] + atoms))
+            else:
+                f = m.Implies(m.ForAll([x], m.Or(x, b0)), m.And([x] + atoms))
+            res = run_impl(env, "prenex", f)
+            out.append(("prenex", f, res, [list(st) for st in steps2]))
+        finally:
+            pop_env()
+    return out
 
 
 def probes(env):
@@ -1042,6 +1148,9 @@ def run(ctx):
             ctx.extra["stopped_early_at"] = i
             break
         process(ctx, env, cases[i:i + chunk])
+    hc = history_cases(ctx, 60 if ctx.tier == "quick" else 600)
+    ctx.extra["history_cases"] = len(hc)
+    process(ctx, env, hc)
     if ctx.s_violations:
         try:
             shrink(ctx, env)
@@ -1052,6 +1161,8 @@ def run(ctx):
 def replay(ctx, rep):
     warnings.simplefilter("ignore")
     r = rep["replay"]
+    if r.get("history"):
+        return replay_history(ctx, r)
     env = fresh_env()
     f = build_fnode(env, wire.dec_term(r["term"]))
     proc = r["proc"]
@@ -1060,6 +1171,28 @@ def replay(ctx, rep):
     res = run_impl(env, proc, f)
     print("result   :", semantic.readable(res[1], 2000) if res[0] == "ok" and proc not in ("conj", "disj") else repr(res))
     process(ctx, env, [(proc, f)])
+    for v in ctx.s_violations:
+        print("S:", v["what"][:400])
+    for v in ctx.k_divergences:
+        print("K:", v["what"][:400])
+
+
+def replay_history(ctx, r):
+    """re-create the environment history, then the formula, then run"""
+    from pysmt.environment import push_env, pop_env
+    env = Environment()
+    push_env(env)
+    try:
+        steps = [tuple(st) for st in r["history"]]
+        apply_history(env, steps)
+        f = build_fnode(env, wire.dec_term(r["term"]))
+        print("history  :", steps)
+        print("input    :", semantic.readable(f, 2000))
+        res = run_impl(env, r["proc"], f)
+        print("result   :", semantic.readable(res[1], 2000) if res[0] == "ok" else repr(res))
+        process(ctx, env, [(r["proc"], f, res, r["history"])])
+    finally:
+        pop_env()
     for v in ctx.s_violations:
         print("S:", v["what"][:400])
     for v in ctx.k_divergences:
